@@ -81,7 +81,7 @@ type c05CovertRes struct {
 }
 
 // c05Covert plays the covert's side of one tunnel.
-func c05CovertServe(ln *net.TCPListener, c c05ProxyCase, clientStream, reply []byte, res *c05CovertRes, done chan struct{}) {
+func c05CovertServe(ln *net.TCPListener, c c05ProxyCase, clientStream, reply []byte, res *c05CovertRes, done chan struct{}, abort chan struct{}) {
 	defer close(done)
 	res.recvBad = -1
 	_ = ln.SetDeadline(time.Now().Add(30 * time.Second))
@@ -93,6 +93,13 @@ func c05CovertServe(ln *net.TCPListener, c c05ProxyCase, clientStream, reply []b
 	tc := conn.(*net.TCPConn)
 	defer tc.Close()
 	_ = tc.SetDeadline(time.Now().Add(c05WaitLimit + 30*time.Second)) // after the case watchdog
+	go func() {                                                       // a case that was given up (violation found) must not leave its tunnel behind
+		select {
+		case <-abort:
+			_ = tc.SetDeadline(time.Unix(1, 0))
+		case <-done:
+		}
+	}()
 	buf := make([]byte, 64*1024)
 	if c.Header == "ok" && !(c.Mode == "reply-rst" && c.Await == 0) { // (a covert that resets at once does not read it: the header write may fail)
 		hdr := make([]byte, len(c05ProxyLine))
@@ -197,11 +204,12 @@ func c05RunProxy(env *c05ProxyEnv, c c05ProxyCase) (out c05Out) {
 	}
 	var res c05CovertRes
 	covDone := make(chan struct{})
+	abortCh := make(chan struct{})
 	if c.Mode == "refuse" {
 		reg.Covert = "127.0.0.1:1"
 		close(covDone)
 	} else {
-		go c05CovertServe(env.ln, c, cs, reply, &res, covDone)
+		go c05CovertServe(env.ln, c, cs, reply, &res, covDone, abortCh)
 	}
 	logbuf := &vSyncBuf{} // the asynchronous closer may still log after Proxy returned
 	logger := log.New(logbuf, "", 0)
@@ -246,6 +254,7 @@ func c05RunProxy(env *c05ProxyEnv, c c05ProxyCase) (out c05Out) {
 				w.mu.Lock()
 				w.abortCase(out.key, out.msg) // close the client connection so that the rest of the tunnel ends
 				w.mu.Unlock()
+				close(abortCh)
 				select {
 				case <-pdone:
 				case <-time.After(10 * time.Second):
@@ -270,6 +279,7 @@ func c05RunProxy(env *c05ProxyEnv, c c05ProxyCase) (out c05Out) {
 				w.mu.Lock()
 				w.abortCase("noreturn:watchdog", "")
 				w.mu.Unlock()
+				close(abortCh)
 				out.key, out.msg = "noreturn:watchdog", fmt.Sprintf("wall-clock watchdog: %v after the start Proxy has not returned and a halfPipe is still running although no wait of the scripted connection holds it (the tunnel needs milliseconds); goroutines inside the relay: %v", c05WaitLimit, gs)
 				return
 			}
